@@ -63,13 +63,19 @@ def run_cron_tick(n):
             nm = 'load%d' % len(env.setdefault('loads', []))
             env['loads'].append(nm)
             ty = type_args(c.dest_ty)[0] if c.dest_ty else 'state::LoadDealState'
-            # scheduling invariant (assumed, see bounds): a deal reaches the tick at or after its start epoch -> never TooEarly
-            if E2.ctx.choose(2, nm) == 0:
+            # contract of get_active_deal_or_process_timeout (C08): a deal with a state in the table is returned as Loaded;
+            # one without is an unactivated proposal, which - by the scheduling invariant assumed in the bounds (a deal
+            # reaches the tick at or after its start epoch) - has timed out: ProposalExpired(slashed amount)
+            stv = E2.deref(c.args[0])
+            did = E2.deref(c.args[3])
+            m = models_fvm.load_map(E2, E2.deref(fget(E2, stv, ST['states'], CID)), 'deal::DealState', 'amt')
+            pres, val = models_fvm.map_lookup(E2, m, ('int', did.v), did)
+            if not pres:
                 pen = z3.Int(nm + '.slashed')
                 E2.ctx.assume(pen >= 0)
                 pens.append(pen)
                 return ok(EnumV(ty, 1, 'ProposalExpired', {('ProposalExpired', 0): BigV(pen)}), c.dest_ty)
-            return ok(EnumV(ty, 2, 'Loaded', {('Loaded', 0): LazyV(nm + '.state', 'deal::DealState')}), c.dest_ty)
+            return ok(EnumV(ty, 2, 'Loaded', {('Loaded', 0): val}), c.dest_ty)
 
         def cut_update(E2, c):
             nm = 'upd%d' % len(env.setdefault('upds', []))
